@@ -390,12 +390,13 @@ func (db *DB) insertOrUpdate(s *Schema, o Object, commit bool) (err error) {
 		return
 	}
 
-	if s.mustCache() {
-		db.cache.put(o)
-	}
-
 	if err = s.index(o); err != nil {
 		return
+	}
+
+	// we cache only an object accepted by the index
+	if s.mustCache() {
+		db.cache.put(o)
 	}
 
 	if s.asyncWritesEnabled() {
